@@ -3,4 +3,5 @@ CONSTANTS
   Mode = "strings"
   MaxLen = 4
   NTexts = 3
+  NestedDepths = {10, 100, 500}
 CHECK_DEADLOCK FALSE
